@@ -13,7 +13,9 @@
     11 write_output* (sorted)                          12 done
 
    A call that raises ends the program.  Finished programs are printed (one JSON line each, Emit) by an
-   exhaustive run (small bounds) or by `-simulate` (larger bounds).                                      *)
+   exhaustive run (small bounds) or by `-simulate` (larger bounds).  GFullNext continues every finished
+   program with Batch.run() (RunStep of BatchDsl), so one exhaustive run both checks the invariants on all
+   canonical programs of the bound and hands the same programs to the harness.                          *)
 EXTENDS BatchDsl, Json, SequencesExt
 
 CONSTANTS
@@ -22,6 +24,9 @@ CONSTANTS
   MaxRefs,                      \* references per consuming command
   FullJobs,                     \* TRUE: only programs with exactly MaxJobs jobs
   UsedDefsOnly,                 \* TRUE: drop programs that define a job resource nobody consumes or writes
+  DefMembers,                   \* TRUE: also commands in which a job mentions a member of its own group directly
+  SameBase,                     \* TRUE: also input groups in which two members have the same file name
+  Undefined,                    \* TRUE: also commands that consume a resource its job has not defined (the call raises)
   MinLen                        \* a program is finished only when it has at least this many calls (simulation)
 
 VARIABLES prog, gph, gkey, ncalls
@@ -42,70 +47,86 @@ At(ph, k) ==
 Log(op) == prog' = Append(prog, op)
 Bump(c) == ncalls' = [ncalls EXCEPT ![c] = @ + 1]
 Keep == UNCHANGED ncalls
-JobsReady == njobs >= (IF FullJobs THEN MaxJobs ELSE 1)
+Building == phase = "build" /\ gph < 12
+JobsReady == Building /\ njobs >= (IF FullJobs THEN MaxJobs ELSE 1)
 
 GInit == Init /\ prog = <<>> /\ gph = 0 /\ gkey = <<0, 0>>
               /\ ncalls = [c \in {"dep", "use", "ext", "write"} |-> 0]
 
-GNewJob == \E a \in BOOLEAN :
+\* (each action starts with a state predicate so that TLC reports it under its own name)
+GNewJob == Building /\ \E a \in BOOLEAN :
   /\ gph = 0 /\ NewJob(a, DDir(njobs + 1)) /\ Log([op |-> "NewJob", always |-> a])
   /\ UNCHANGED <<gph, gkey>> /\ Keep
 
-GDepend == \E c, p \in Jobs :
-  /\ JobsReady /\ ncalls["dep"] < MaxDeps /\ ncalls["dep"] + ncalls["use"] < MaxEdges
+GDepend == JobsReady /\ \E c, p \in Jobs :
+  /\ ncalls["dep"] < MaxDeps /\ ncalls["dep"] + ncalls["use"] < MaxEdges
   /\ At(1, <<c, p>>) /\ Depend(c, p) /\ Log([op |-> "Depend", c |-> c, p |-> p]) /\ Bump("dep")
 
-GDeclareGroup == \E j \in Jobs :
-  /\ JobsReady /\ At(3, <<j, 0>>) /\ DeclareGroup(j) /\ Log([op |-> "DeclareGroup", j |-> j]) /\ Keep
+GDeclareGroup == JobsReady /\ \E j \in Jobs :
+  /\ At(3, <<j, 0>>) /\ DeclareGroup(j) /\ Log([op |-> "DeclareGroup", j |-> j]) /\ Keep
 
-GReadInput == \E r \in InF, ip \in InPaths :
-  /\ JobsReady /\ At(4, <<Rk(r), 0>>)
+GReadInput == JobsReady /\ \E r \in InF, ip \in InPaths :
+  /\ At(4, <<Rk(r), 0>>)
   /\ \A q \in InF : Rk(q) < Rk(r) => q \in created
   /\ ReadInput(r, ip, "r" \o r.n)
   /\ Log([op |-> "ReadInput", r |-> r, ip |-> ip]) /\ Keep
 
-GReadInputGroup == \E f \in [InGroupMembers -> InPaths] :
-  /\ JobsReady /\ At(5, <<0, 0>>) /\ ReadInputGroup(f, "rG") /\ Log([op |-> "ReadInputGroup", f |-> f]) /\ Keep
+GReadInputGroup == JobsReady /\ \E f \in [InGroupMembers -> InPaths] :
+  /\ SameBase \/ \A a, b \in InGroupMembers : a # b => f[a].base # f[b].base
+  /\ At(5, <<0, 0>>) /\ ReadInputGroup(f, "rG") /\ Log([op |-> "ReadInputGroup", f |-> f]) /\ Keep
 
-GAddExt(ph) == \E r \in JF, e \in Exts :
-  /\ JobsReady /\ ncalls["ext"] < MaxExt /\ At(ph, <<Rk(r), Ek(e)>>)
+GAddExt(ph) == JobsReady /\ \E r \in JF, e \in Exts :
+  /\ ncalls["ext"] < MaxExt /\ At(ph, <<Rk(r), Ek(e)>>)
   /\ ph = 6  => ~MentionedAnywhere(r)
   /\ ph = 8  => r \in mentioned[r.j]
   /\ ph = 10 => MentionedAnywhere(r)
   /\ AddExt(r, e) /\ Log([op |-> "AddExt", r |-> r, e |-> e]) /\ Bump("ext")
 
 \* a command that mentions one of the job's own resources (makes it valid for consumers)
-GDefine == \E r \in Res :
-  /\ JobsReady /\ Src(r) # 0 /\ r \in created /\ At(7, <<Rk(r), 0>>)
+GDefine == JobsReady /\ \E r \in Res :
+  /\ Src(r) # 0 /\ r \in created /\ (DefMembers \/ r.k # "gm") /\ At(7, <<Rk(r), 0>>)
   /\ Command(Src(r), <<[t |-> "ref", r |-> r]>>)
   /\ Log([op |-> "Command", j |-> Src(r), refs |-> <<r>>]) /\ Keep
 
 \* a command of job c that references 1..MaxRefs resources, the first of which is not its own
 RefSeqs == UNION { [1..n -> created] : n \in 1..MaxRefs }
-GUse == \E c \in Jobs : \E rs \in RefSeqs :
-  /\ JobsReady /\ Src(rs[1]) # c /\ ncalls["use"] < MaxUses /\ ncalls["dep"] + ncalls["use"] < MaxEdges
+GUse == JobsReady /\ \E c \in Jobs : \E rs \in RefSeqs :
+  /\ Src(rs[1]) # c /\ ncalls["use"] < MaxUses /\ ncalls["dep"] + ncalls["use"] < MaxEdges
   /\ \A i \in 2..Len(rs) : Rk(rs[i - 1]) < Rk(rs[i])
+  /\ Undefined \/ \A i \in 1..Len(rs) : IF Src(rs[i]) \in {0, c} THEN TRUE ELSE rs[i] \in valid[Src(rs[i])]
   /\ At(9, <<c, Rk(rs[1])>>)
   /\ Command(c, [i \in 1..Len(rs) |-> [t |-> "ref", r |-> rs[i]]])
   /\ Log([op |-> "Command", j |-> c, refs |-> rs]) /\ Bump("use")
 
-GWrite == \E r \in Res, d \in Dests :
-  /\ JobsReady /\ ncalls["write"] < MaxWrites /\ At(11, <<Rk(r), Dk(d)>>)
+GWrite == JobsReady /\ \E r \in Res, d \in Dests :
+  /\ ncalls["write"] < MaxWrites /\ At(11, <<Rk(r), Dk(d)>>)
   /\ WriteOutput(r, d) /\ Log([op |-> "WriteOutput", r |-> r, d |-> d]) /\ Bump("write")
 
 Consumed(r) == \/ \E u \in uses : r \in ValidClosure(u[2]) \/ u[2] \in ValidClosure(r)
                \/ \E w \in wout : r \in ValidClosure(w[1]) \/ w[1] \in ValidClosure(r)
 GDone ==
-  /\ gph < 12 /\ JobsReady /\ phase = "build" /\ Len(prog) >= MinLen
+  /\ JobsReady /\ Len(prog) >= MinLen
   /\ UsedDefsOnly => \A j \in Live : \A r \in mentioned[j] : Src(r) = j => Consumed(r)
   /\ gph' = 12 /\ UNCHANGED <<vars, prog, gkey, ncalls>>
 
 GNext ==
-  /\ phase = "build" /\ gph < 12
-  /\ \/ GNewJob \/ GDepend \/ GDeclareGroup \/ GReadInput \/ GReadInputGroup
-     \/ GAddExt(6) \/ GDefine \/ GAddExt(8) \/ GUse \/ GAddExt(10) \/ GWrite \/ GDone
+  \/ GNewJob \/ GDepend \/ GDeclareGroup \/ GReadInput \/ GReadInputGroup
+  \/ GAddExt(6) \/ GDefine \/ GAddExt(8) \/ GUse \/ GAddExt(10) \/ GWrite \/ GDone
 
-Finished == gph = 12 \/ phase = "aborted"
-\* "invariant" with a side effect: print every finished program once
+\* canonical programs followed by Batch.run(): the C17 / C18 invariants are checked on these behaviours too
+Ran == gph = 12 /\ UNCHANGED <<prog, gph, gkey, ncalls>>
+GNumber       == Ran /\ NumberAny
+GStartLocal   == Ran /\ StartLocal
+GRunLocal     == Ran /\ \E j \in Live, ok \in BOOLEAN : RunLocal(j, ok)
+GSkipLocal    == Ran /\ \E j \in Live : SkipLocal(j)
+GEndLocal     == Ran /\ EndLocal
+GStartService == Ran /\ StartService("/L", "R:")
+GSubmit       == Ran /\ SubmitAny
+GEndService   == Ran /\ EndServiceAny
+GFullNext == GNext \/ GNumber \/ GStartLocal \/ GRunLocal \/ GSkipLocal \/ GEndLocal
+                   \/ GStartService \/ GSubmit \/ GEndService
+
+Finished == (gph = 12 /\ phase = "build") \/ phase = "aborted"
+\* "invariant" with a side effect: print every finished program once (the state right after the last call)
 Emit == Finished => PrintT(<<"PROG", ToJson(prog)>>)
 =============================================================================
